@@ -94,6 +94,8 @@ def sys_prop(assumptions, explanation, with_wakeup=False, quick=120):
 
 
 def sig_c20(rec):
+    if rec.get("family") == "racestress":
+        return "racestress:" + str((rec.get("case") or {}).get("kind"))
     if rec.get("family") == "negotiate":
         return sig_resp(rec)
     return sig_flight(rec)
@@ -133,7 +135,9 @@ PROPS = {
     },
     "C20": {
         "families": {"flight": flight_family(120, 1500, 300), "wakeup": WAKEUP_FAMILY,
-                     "negotiate": {"quick": 300, "thorough": 8000, "search": 3000, "components": NEGOTIATE_COMPONENTS}},
+                     "negotiate": {"quick": 300, "thorough": 8000, "search": 3000, "components": NEGOTIATE_COMPONENTS},
+                     "racestress": {"quick": 0, "thorough": 2500, "search": 700, "runner": "test", "test": "TestRaceStress", "race": True,
+                                    "no_cases": True, "only": ["thorough", "search"], "search_first": True, "timeout_s": 400}},
         "signature": sig_c20,
         "trusted_base": SYS_TRUST + [
             "harness/cmd/skeleton (go/ast) extracts, per function, the ordered lock operations, field reads/writes, calls and control structure; the verified analysis of coq/Proofs/Lockset.v runs on that term inside Coq on every run",
